@@ -6,6 +6,7 @@ open BinNums
 open Base
 open C04Model
 open C04AsmModel
+open C04AllocModel
 
 let zarg s = z_of_hex s
 
@@ -151,5 +152,37 @@ let () =
         let sh = if shapes = "-" then [] else L.map parse_shape (split_on ';' shapes) in
         let m = model_pipeline cfg sh in
         if m = obs then Printf.printf "OK %s\n" id else Printf.printf "MISMATCH %s assembly model=%s\n" id m
+      | ["C"; id; path; hex; cls; cnt; lb] ->
+        (* count-field inflation of a table box: outcome class, decoded entry count and allocation bucket
+           against the prologue models of C04AllocModel.v *)
+        let bs = bytes_of_hex hex in
+        let len = L.length bs in
+        let nm = S.concat "" (L.map (fun x -> S.make 1 (Char.chr (int_of_n x land 255))) (name_of bs)) in
+        let r = if path = "S" then alloc_box_sr bs else alloc_box_r bs in
+        let lb = int_of_string lb in
+        (match r with
+         | None ->
+           (* an sgpd whose (corrupted) grouping type is not alst has no prologue model *)
+           if nm = "sgpd" then Printf.printf "OK %s\n" id
+           else Printf.printf "MISMATCH %s count box %s is not modelled\n" id nm
+         | Some (Ok o) ->
+           let mcls = if o_ok o then "ok" else "err" in
+           (* ssix / leva / sgpd: only the prologue is modelled, the entry loop may still fail *)
+           let partial = (nm = "ssix" || nm = "leva" || nm = "sgpd") in
+           let cls_ok = (cls = mcls) || (partial && mcls = "ok" && cls = "err") || (nm = "sgpd" && cls <> "panic") in
+           let cnt_ok = (cls <> "ok") || nm = "sgpd" || int_of_string cnt = int_of_n (o_count o) in
+           let al = int_of_n (o_alloc o) in
+           let hi = if lb >= 62 then max_int else 1 lsl lb in
+           let lo = if lb = 0 then 0 else 1 lsl (lb - 1) in
+           (* runtime/metrics counts small objects only when their span is flushed: the lower bound is checked for
+              large tables only (objects above 32 KiB are counted at once), and the upper bound has 1 MiB of slack for
+              small objects of earlier jobs that are accounted late *)
+           let alloc_ok = (al < 131072 || hi >= al / 2) && lo <= 4 * al + 64 * len + 1048576 in
+           if cls_ok && cnt_ok && alloc_ok then Printf.printf "OK %s\n" id
+           else Printf.printf "MISMATCH %s count %s model class=%s count=%d alloc=%d iters=%d (class %b count %b alloc %b)\n"
+               id nm mcls (int_of_n (o_count o)) al (int_of_n (o_iters o)) cls_ok cnt_ok alloc_ok
+         | Some Panic ->
+           if cls = "panic" then Printf.printf "OK %s\n" id else Printf.printf "MISMATCH %s count %s model=panic\n" id nm
+         | Some _ -> Printf.printf "MISMATCH %s count %s model=err/fuel\n" id nm)
       | "FAIL" :: _ | "STATS" :: _ | "EVALS" :: _ -> ()
       | _ -> Printf.printf "BADLINE %s\n" line)
